@@ -6,15 +6,133 @@ import EdpVerif.Lemmas.RoundTrip
 import EdpVerif.Lemmas.Reencode
 import EdpVerif.Lemmas.EncErr
 import EdpVerif.Lemmas.SpecValid
+import EdpVerif.Impl.EncodeEntry
+import EdpVerif.Impl.DistHeader
+import EdpVerif.Generated.Misc
 /-
 C01 — encode/decode round trip preserves the Erlang value of every term.
 Property theorems only; helper lemmas live in EdpVerif/Lemmas.
 -/
 namespace Edp.Props.C01
-open Edp Edp.Term
+open Edp Edp.Term Edp.DistHeader
 
-/-- table tie re-checked against the source on every run -/
-theorem C01_tags_are_the_formats : Gen.VERSION = 131 ∧ Gen.SMALL_INTEGER_EXT = 97 ∧ Gen.NIL_EXT = 106 := by decide
+/-- first byte of an encoder result, as a number -/
+def headTag (r : Except EncErr Bytes) : Option Nat :=
+  match r with
+  | .ok (b :: _) => some b.toNat
+  | _ => none
+
+/-- table tie re-checked against the source on every run: for every one of the 17 variants (and the LOCAL_EXT replay
+of an identifier) the tag byte the encoder MODEL writes is the constant `tools/gen_tables.py` re-extracts from tags.rs
+under the name encoder.rs uses for that variant; and every successful `encode` starts with `VERSION` -/
+theorem C01_encoder_emits_generated_tags :
+    [headTag (enc [] (.int 0)), headTag (enc [] (.int 256)), headTag (enc [] (.int 2147483648)),
+     headTag (enc [] (.float 0)), headTag (enc [] (.atom [])), headTag (enc [[97]] (.atom [97])),
+     headTag (enc [] (.bin [])), headTag (enc [] (.bits [0] 1)), headTag (enc [] (.str [])),
+     headTag (enc [] (.list [])), headTag (enc [] (.list [.nil])), headTag (enc [] (.ilist [] .nil)),
+     headTag (enc [] (.map [])), headTag (enc [] (.tuple [])), headTag (enc [] (.big false [])), headTag (enc [] .nil),
+     headTag (enc [] (.pid { node := [], id := 0, serial := 0, creation := 0 })),
+     headTag (enc [] (.pid { node := [], id := 0, serial := 0, creation := 0, loc := some [] })),
+     headTag (enc [] (.port [] 0 0 none)), headTag (enc [] (.ref [] 0 [] none)), headTag (enc [] (.xfun [] [] 0)),
+     headTag (enc [] (.ifun 0 [] 0 0 [] 0 0 { node := [], id := 0, serial := 0, creation := 0 } []))]
+    = [Gen.SMALL_INTEGER_EXT, Gen.INTEGER_EXT, Gen.SMALL_BIG_EXT, Gen.NEW_FLOAT_EXT, Gen.SMALL_ATOM_UTF8_EXT,
+       Gen.ATOM_CACHE_REF, Gen.BINARY_EXT, Gen.BIT_BINARY_EXT, Gen.BINARY_EXT, Gen.NIL_EXT, Gen.LIST_EXT, Gen.LIST_EXT,
+       Gen.MAP_EXT, Gen.SMALL_TUPLE_EXT, Gen.SMALL_BIG_EXT, Gen.NIL_EXT, Gen.NEW_PID_EXT, Gen.LOCAL_EXT, Gen.V4_PORT_EXT,
+       Gen.NEWER_REFERENCE_EXT, Gen.EXPORT_EXT, Gen.NEW_FUN_EXT].map some
+    ∧ ∀ t bs, encode t = .ok bs → ∃ b, bs = UInt8.ofNat Gen.VERSION :: b ∧ enc [] t = .ok b := by
+  refine ⟨by decide, ?_⟩
+  intro t bs h
+  unfold encode at h
+  cases h1 : enc [] t with
+  | error e => simp [h1] at h
+  | ok b => simp [h1] at h; exact ⟨b, by rw [← h]; rfl, rfl⟩
+
+/-- the width decisions of the encoder model are taken at the thresholds regenerated from encoder.rs (and these are
+the format's: a one-byte value / length field holds up to 255, INTEGER_EXT is a signed 32-bit field):
+integers, atoms (for every atom cache that does not hold the atom), big integers, tuples -/
+theorem C01_encoder_thresholds :
+    (∀ v : Int, 0 ≤ v → v ≤ Gen.C01_ENC_SMALL_INT_MAX → encInt v = [97, UInt8.ofNat v.toNat]) ∧
+    (∀ v : Int, Gen.C01_ENC_INT32_RANGE = true → (v < 0 ∨ v > Gen.C01_ENC_SMALL_INT_MAX) → -2147483648 ≤ v → v ≤ 2147483647 →
+      encInt v = 98 :: be32 (v % 4294967296).toNat) ∧
+    (∀ v : Int, (v < -2147483648 ∨ v > 2147483647) → (encInt v).head? = some 110) ∧
+    (∀ a : Bytes, a.length ≤ Gen.C01_ENC_SMALL_ATOM_MAX → encAtom [] a = .ok (119 :: be8 a.length ++ a)) ∧
+    (∀ a : Bytes, a.length > Gen.C01_ENC_SMALL_ATOM_MAX → a.length ≤ u16max → encAtom [] a = .ok (118 :: be16 a.length ++ a)) ∧
+    (∀ a : Bytes, a.length > u16max → encAtom [] a = .error .atomTooLarge) ∧
+    (∀ n d, (encBig n d).head? = some (if d.length ≤ Gen.C01_ENC_BIGINT_SMALL_MAX then 110 else 111)) ∧
+    (∀ l b, l.length ≤ Gen.C01_ENC_SMALL_TUPLE_MAX → enc [] (.tuple l) = .ok b → b.head? = some 104) ∧
+    (∀ l b, l.length > Gen.C01_ENC_SMALL_TUPLE_MAX → enc [] (.tuple l) = .ok b → b.head? = some 105) ∧
+    Gen.C01_ENC_SMALL_BIG_MAX ≥ 8 := by
+  refine ⟨?_, ?_, ?_, ?_, ?_, ?_, ?_, ?_, ?_, by decide⟩
+  · intro v h0 h1
+    have h1' : v ≤ 255 := by simpa [Gen.C01_ENC_SMALL_INT_MAX] using h1
+    simp [encInt, h0, h1']
+  · intro v _ h0 h1 h2
+    have h0' : v < 0 ∨ v > 255 := by simpa [Gen.C01_ENC_SMALL_INT_MAX] using h0
+    have : ¬ (0 ≤ v ∧ v ≤ 255) := by omega
+    simp [encInt, this, h1, h2]
+  · intro v h
+    have h1 : ¬ (0 ≤ v ∧ v ≤ 255) := by omega
+    have h2 : ¬ (-2147483648 ≤ v ∧ v ≤ 2147483647) := by omega
+    simp [encInt, h1, h2]
+  · intro a h
+    simp only [Gen.C01_ENC_SMALL_ATOM_MAX] at h
+    have h1 : ¬ a.length > u16max := by simp [u16max]; omega
+    have h2 : ¬ a.length > 255 := by omega
+    simp [encAtom, indexOf?, h1, h2]
+  · intro a h h'
+    simp only [Gen.C01_ENC_SMALL_ATOM_MAX] at h
+    have h1 : ¬ a.length > u16max := by omega
+    simp [encAtom, indexOf?, h1, h]
+  · intro a h
+    simp [encAtom, indexOf?, h]
+  · intro n d
+    by_cases h : d.length ≤ 255 <;> simp [encBig, Gen.C01_ENC_BIGINT_SMALL_MAX, h]
+  · intro l b h he
+    simp only [Gen.C01_ENC_SMALL_TUPLE_MAX] at h
+    simp only [enc, h, ↓reduceIte] at he
+    split at he
+    · simp at he; simp [← he]
+    · simp at he
+  · intro l b h he
+    simp only [Gen.C01_ENC_SMALL_TUPLE_MAX] at h
+    have h1 : ¬ l.length ≤ 255 := by omega
+    simp only [enc, h1, ↓reduceIte] at he
+    split at he
+    · simp at he
+    · split at he
+      · simp at he; simp [← he]
+      · simp at he
+
+example : encInt 255 = [97, 255] ∧ encInt 256 = [98, 0, 0, 1, 0] ∧ encInt (-1) = [98, 255, 255, 255, 255] := by
+  refine ⟨?_, ?_, ?_⟩
+  · simpa using C01_encoder_thresholds.1 255 (by decide) (by decide)
+  · simpa [be32, beN] using C01_encoder_thresholds.2.1 256 rfl (by decide) (by decide) (by decide)
+  · simpa [be32, beN] using C01_encoder_thresholds.2.1 (-1) rfl (by decide) (by decide) (by decide)
+
+/-- integer type → largest value -/
+def tyMax : String → Nat
+  | "u8" => 255
+  | "u16" => 65535
+  | "u32" => 4294967295
+  | _ => 0
+
+/-- "size errors instead of truncation": the `try_from` guards regenerated from encoder.rs are, function by function,
+the limits of the encoder model (`u16max` for atom names and reference words, `u32max` for everything else) with the
+error variant the model returns — and these are the widths of the format's length fields (2 and 4 bytes).  The casts of
+a length that remain are listed too: all sit behind one of these guards or a width test, except the two the notes
+name (`encode_bigint`'s `len as u32` and the NEW_FUN_EXT size), so a new unguarded cast breaks this obligation. -/
+theorem C01_size_guards_are_the_formats :
+    Gen.C01_ENC_SIZE_GUARDS.map (fun g => (g.1, tyMax g.2.1, g.2.2)) =
+      [("encode_atom_impl", u16max, "AtomTooLarge"), ("encode_binary", u32max, "BinaryTooLarge"),
+       ("encode_bit_binary", u32max, "BinaryTooLarge"), ("encode_list_impl", u32max, "ListTooLarge"),
+       ("encode_improper_list_impl", u32max, "ListTooLarge"), ("encode_map_impl", u32max, "MapTooLarge"),
+       ("encode_tuple_impl", u32max, "TupleTooLarge"), ("encode_reference_impl", u16max, "ReferenceTooLarge")] ∧
+    u16max = 256 ^ 2 - 1 ∧ u32max = 256 ^ 4 - 1 ∧
+    Gen.C01_ENC_LEN_CASTS =
+      [("encode_atom_impl", "len as u16"), ("encode_atom_impl", "len as u8"), ("encode_integer", "significant_len as u8"),
+       ("encode_integer", "significant_len as u32"), ("encode_tuple_impl", "elements.len() as u8"),
+       ("encode_bigint", "len as u8"), ("encode_bigint", "len as u32"),
+       ("encode_new_fun_ext_impl", "(temp_buf.len()+4) as u32")] := by decide
 
 /-- decoding what the encoder wrote returns the term's wire form (`wire t`: the same term with integers beyond 32 bits
 as big integers, strings as binaries, the empty list as nil, improper lists with a nil tail as proper lists, maps
@@ -201,5 +319,69 @@ theorem C01_valid_not_for_nan :
     ∃ t bs, wfT t = true ∧ encode t = .ok bs ∧ Spec.parseTop {} bs = none :=
   ⟨.float 0x7FF8000000000000, [131, 70, 0x7F, 0xF8, 0, 0, 0, 0, 0, 0], by decide, rfl, by
     simp [Spec.parseTop, Spec.parse, rdN]⟩
+
+/-! ### the other entry points hand out the same term bytes -/
+
+/-- `encode_to_writer`: whatever was written before, the writer receives exactly the bytes `encode` returns, after
+them, when it accepts them; an encoder error comes back unchanged and nothing is written -/
+theorem C01_writer_same_bytes (t : Term) (w : Bytes) :
+    (∀ bs, encode t = .ok bs → encodeToWriter t w true = .ok (w ++ bs) ∧ encodeToWriter t w false = .error .io) ∧
+    (∀ e acc, encode t = .error e → encodeToWriter t w acc = .error (.enc e)) ∧
+    (∀ acc out, encodeToWriter t w acc = .ok out → ∃ bs, encode t = .ok bs ∧ out = w ++ bs) := by
+  refine ⟨?_, ?_, ?_⟩
+  · intro bs h; simp [encodeToWriter, h]
+  · intro e acc h; simp [encodeToWriter, h]
+  · intro acc out h
+    unfold encodeToWriter at h
+    cases he : encode t with
+    | error e => simp [he] at h
+    | ok b =>
+      simp only [he] at h
+      split at h
+      · simp at h; exact ⟨b, rfl, h.symm⟩
+      · simp at h
+
+example : encodeToWriter (.int 5) [1, 2] true = .ok [1, 2, 131, 97, 5] :=
+  (C01_writer_same_bytes (.int 5) [1, 2]).1 [131, 97, 5] rfl |>.1
+
+/-- `encode_with_dist_header` (one term, any order `order` of its atoms in the header): behind `131, 68` and the header
+come exactly the bytes of the shared term encoder run with that atom table, and — for a well-formed term with finite
+floats — the independent reader, resolving ATOM_CACHE_REF through the same table, reads them as the term's value -/
+theorem C01_dist_header_same_term_bytes (env : Spec.Env) (order : List Bytes) (t : Term) (bs : Bytes)
+    (h : encodeDist order [t] = .ok bs) :
+    ∃ hdr body, bs = 131 :: 68 :: (hdr ++ body) ∧ enc order t = .ok body ∧ order.length ≤ 255 ∧
+      (wfT t = true → finiteFloats t = true → body.length ≤ 4294967295 → env.refs = order.map cps →
+        Spec.parse env (body.length + 1) body = some (den t, [])) := by
+  have key : ∀ body, enc order t = .ok body → order.length ≤ 255 →
+      (wfT t = true → finiteFloats t = true → body.length ≤ 4294967295 → env.refs = order.map cps →
+        Spec.parse env (body.length + 1) body = some (den t, [])) := by
+    intro body hb hl hw hfin hsz hrefs
+    have := C01_valid_cached env order t body [] hw hfin hb hsz (by omega) hrefs
+    simpa using this
+  unfold encodeDist at h
+  split at h
+  · rename_i hemp
+    have ho : order = [] := by simpa using hemp
+    subst ho
+    simp only [encL] at h
+    cases hb : enc [] t with
+    | error e => simp [hb] at h
+    | ok b =>
+      simp [hb] at h
+      exact ⟨[0], b, by simp [← h], rfl, by simp, key b hb (by simp)⟩
+  · split at h
+    · simp at h
+    · rename_i hn
+      split at h
+      · simp at h
+      · simp only [encL] at h
+        cases hb : enc order t with
+        | error e => simp [hb] at h
+        | ok b =>
+          simp [hb] at h
+          exact ⟨header order, b, by simp [← h], rfl, by omega, key b hb (by omega)⟩
+
+example : encodeDist [[97]] [.tuple [.atom [97], .int 1]] = .ok ([131, 68] ++ header [[97]] ++ [104, 2, 82, 0, 97, 1]) := by
+  rfl
 
 end Edp.Props.C01
